@@ -163,7 +163,12 @@ def rule_limit(ctx):
               'a cached or fresh error is raised on every path before anything is returned',
               'a path returns the result without the error test: the error is not raised consistently from the cache', loc=ctx.loc(f, f.node))
     n += 1
-    # generator limit discipline
+    return n + rule_generator_limit(ctx, 'C17.LIMIT')
+
+
+def rule_generator_limit(ctx, rule):
+    '''History.get_txnums stops after exactly `limit` entries, counted across rows.'''
+    n = 0
     g = ctx.func('hist', 'History.get_txnums')
     gcfg = ctx.cfg(g)
     ys = [s for s in g.own_nodes() if isinstance(s, ast.Expr) and isinstance(s.value, ast.Yield)]
@@ -180,7 +185,7 @@ def rule_limit(ctx):
             rl = [s for s in g.node.body if isinstance(s, ast.Assign) and norm(s.targets[0]) == g.params[2] and 'resolve_limit' in norm(s.value)]
             rebinds = [s for s in q.assigns(ctx, g, g.params[2]) if s not in decs and s not in rl]
             okg = o1 and o2 and len(rl) == 1 and not rebinds
-    ctx.check(okg, 'C17.LIMIT', ctx.key(g, None, 'generator stops at limit'),
+    ctx.check(okg, rule, ctx.key(g, None, 'generator stops at limit'),
               'the tx-number generator tests the remaining limit before each yield and decrements it once per yielded entry, across rows',
               'the tx-number generator does not stop after exactly `limit` entries across rows (limit applied per row or not at all)',
               loc=ctx.loc(g, g.node))
